@@ -50,6 +50,7 @@ type attemptRec struct {
 	lastID      []string
 	body        []byte
 	bodyErr     error
+	bodyUnsent  bool // the transport closed the request body without reading it (the dial failed first)
 	stream      []byte // bytes actually offered (up to the end offset)
 	endKind     int    // 0 EOF, 1 error, 2 hang until cancelled
 	endErr      error
@@ -123,6 +124,7 @@ type clientWorld struct {
 	rejectErr  error
 	bodyKind   int // 0 none, 1 NoBody, 2 replayable, 3 no GetBody, 4 GetBody fails at k, 5 replayable, each body unusable once closed (a file)
 	getBodyN   int
+	bodyReuse  string // set when one body instance was handed to the transport in two different attempts
 	getBodyErr error
 	failGetAt  int
 	bodyBytes  []byte
@@ -434,10 +436,17 @@ func (rt *clientRT) RoundTrip(req *http.Request) (*http.Response, error) {
 		a.initialID = w.lastDispatchedID
 		w.attempts = append(w.attempts, a)
 		if req.Body != nil {
-			a.body, a.bodyErr = io.ReadAll(req.Body)
-			req.Body.Close()
+			if w.bodyKind >= 2 && a.n < w.maxAtt && w.rc.Prop != "C13" && ch.Chance(1, 6, "dial fails before the request body is sent") {
+				// what net/http's transport does when it cannot get a connection: the body is closed, never read
+				a.bodyUnsent = true
+				req.Body.Close()
+				w.o.probe("request body closed unread by a failing dial")
+			} else {
+				a.body, a.bodyErr = io.ReadAll(req.Body)
+				req.Body.Close()
+			}
 		}
-		w.sim.Logf("RoundTrip", "#%d Last-Event-ID=%q body=%q", a.n, a.lastID, a.body)
+		w.sim.Logf("RoundTrip", "#%d Last-Event-ID=%q body=%q unsent=%v", a.n, a.lastID, a.body, a.bodyUnsent)
 	}
 	w.sim.YieldHere("RoundTrip")
 	if err := w.transportCtxErr(); err != nil {
@@ -445,6 +454,14 @@ func (rt *clientRT) RoundTrip(req *http.Request) (*http.Response, error) {
 		a.dialErr = err
 		a.ended = w.sim.Elapsed()
 		return nil, err
+	}
+	if !followUp && a.bodyUnsent {
+		a.kind = attDialFail
+		a.dialErr = newInjected(fmt.Sprintf("dial #%d (body not sent)", a.n))
+		w.o.fault("transport: dial failure")
+		a.ended = w.sim.Elapsed()
+		w.sim.Logf("RoundTrip", "#%d dial failure before the body was sent", a.n)
+		return nil, a.dialErr
 	}
 	if !followUp && w.rc.Prop != "C13" && w.bodyKind != 4 && ch.Chance(1, 10, "attempt answered with a redirect first") {
 		// http.Client follows it and calls RoundTrip again; to the connection this is one attempt
@@ -730,22 +747,53 @@ func (p *plainReader) Read(b []byte) (int, error) { return p.r.Read(b) }
 type closableBody struct {
 	r      *bytes.Reader
 	closed bool
+	use    bodyUse
 }
 
 func (b *closableBody) Read(p []byte) (int, error) {
+	b.use.note()
 	if b.closed {
 		return 0, newInjected("read of a request body that was closed")
 	}
 	return b.r.Read(p)
 }
 
-func (b *closableBody) Close() error { b.closed = true; return nil }
+func (b *closableBody) Close() error { b.use.note(); b.closed = true; return nil }
+
+// bodyUse remembers in which attempt a request body instance was handed to the transport (read or
+// closed by it). "Re-obtained through GetBody for every retry" means that no instance serves two attempts.
+type bodyUse struct {
+	w      *clientWorld
+	serial int // 0 = the body the request was made with, k = the k-th result of GetBody
+	usedBy int
+}
+
+func (u *bodyUse) note() {
+	if u.w == nil {
+		return
+	}
+	n := len(u.w.attempts)
+	if u.usedBy == 0 {
+		u.usedBy = n
+	} else if u.usedBy != n && u.w.bodyReuse == "" {
+		u.w.bodyReuse = fmt.Sprintf("the body instance #%d (0 = original, k = k-th GetBody result) was handed to the transport in attempt #%d and again in attempt #%d", u.serial, u.usedBy, n)
+	}
+}
+
+// trackedBody wraps what the request's own GetBody returns (kinds 2 and 4).
+type trackedBody struct {
+	io.ReadCloser
+	use bodyUse
+}
+
+func (t *trackedBody) Read(p []byte) (int, error) { t.use.note(); return t.ReadCloser.Read(p) }
+func (t *trackedBody) Close() error               { t.use.note(); return t.ReadCloser.Close() }
 
 func (w *clientWorld) newRequest() *http.Request {
 	var body io.Reader
 	switch w.bodyKind {
 	case 5:
-		body = &closableBody{r: bytes.NewReader(w.bodyBytes)}
+		body = &closableBody{r: bytes.NewReader(w.bodyBytes), use: bodyUse{w: w}}
 	case 2, 4:
 		body = bytes.NewReader(w.bodyBytes)
 	case 3:
@@ -766,7 +814,7 @@ func (w *clientWorld) newRequest() *http.Request {
 		req.ContentLength = int64(len(w.bodyBytes))
 		req.GetBody = func() (io.ReadCloser, error) {
 			w.getBodyN++
-			return &closableBody{r: bytes.NewReader(w.bodyBytes)}, nil
+			return &closableBody{r: bytes.NewReader(w.bodyBytes), use: bodyUse{w: w, serial: w.getBodyN}}, nil
 		}
 		w.o.probe("request body that is unusable once closed")
 	}
@@ -779,13 +827,15 @@ func (w *clientWorld) newRequest() *http.Request {
 				w.o.fault("GetBody fails")
 				return nil, w.getBodyErr
 			}
-			return orig()
+			b, err := orig()
+			return &trackedBody{ReadCloser: b, use: bodyUse{w: w, serial: w.getBodyN}}, err
 		}
 	} else if w.bodyKind == 2 {
 		orig := req.GetBody
 		req.GetBody = func() (io.ReadCloser, error) {
 			w.getBodyN++
-			return orig()
+			b, err := orig()
+			return &trackedBody{ReadCloser: b, use: bodyUse{w: w, serial: w.getBodyN}}, err
 		}
 	}
 	return req
@@ -1544,13 +1594,16 @@ func (w *clientWorld) checkC10() {
 				o.violate("C10", "body", "attempt #%d: NoBody request sent %q", a.n, a.body)
 			}
 		default:
-			if !bytes.Equal(a.body, w.bodyBytes) {
+			if !a.bodyUnsent && !bytes.Equal(a.body, w.bodyBytes) {
 				o.violate("C10", "body", "attempt #%d sent body %q, want %q", a.n, a.body, w.bodyBytes)
 			}
 		}
 		if evs := a.expectedEvents(); len(evs) > 0 {
 			want = evs[len(evs)-1].ID
 		}
+	}
+	if w.bodyReuse != "" {
+		o.violate("C10", "body-reused", "a request body must be re-obtained through GetBody for every retry: %s", w.bodyReuse)
 	}
 	if w.bodyKind == 3 && len(w.attempts) > 1 {
 		o.violate("C10", "body-not-resettable", "a request body without GetBody was sent %d times", len(w.attempts))
